@@ -1847,7 +1847,7 @@ class Interp:
             q = f.fi.qualname
             if q in self.spec.models:
                 return self.spec.models[q].fn(self, args, kwargs, node)
-            if f.env or q in self.spec.inline or '<lambda>' in q or '<locals>' in q:
+            if f.env or q in self.spec.inline or '<lambda>' in q or '<locals>' in q or self._small_helper(f.fi.node, q):
                 return self.call_function(f.fi, args, kwargs, closure_env=f.env)
             raise Unsupported('call of %s: no contract and not marked inline' % q)
         if isinstance(f, ClassRef):
@@ -1862,14 +1862,27 @@ class Interp:
             q = '%s.%s.%s' % (cls.modname, cls.name, mnode.name)
             if q in self.spec.models:
                 return self.spec.models[q].fn(self, [o] + args, kwargs, node)
-            if q in self.spec.inline:
+            if q in self.spec.inline or self._small_helper(mnode, q):
                 fi = extract.FunctionInfo(q, extract.module(cls.modname), mnode, cls.node)
+                if any(isinstance(d, ast.Name) and d.id == 'staticmethod' for d in mnode.decorator_list):
+                    return self.call_function(fi, args, kwargs)
                 return self.call_function(fi, args, kwargs, self_obj=o)
             raise Unsupported('method %s: no contract and not marked inline' % q)
         if isinstance(f, tuple) and f and f[0] == 'boundattr':
             _, o, attr = f
             return self.method(o, attr, args, kwargs, node)
         raise Unsupported('call of %r (%s)' % (f, text))
+
+    def _small_helper(self, fnode, q):
+        """A package function / method that has no contract is executed (its real body) when it is a small, non-recursive helper: extracting a few
+        lines into a helper is the commonest harmless refactoring and must not leave the proof undecided.  Executing the real code is always sound;
+        the size and depth limits only keep the analysis tractable (beyond them: Unsupported, i.e. UNDECIDED)."""
+        if self.depth > 6 or any(fr.fi.qualname == q for fr in self.frames):
+            return False
+        size = sum(1 for _ in ast.walk(fnode))
+        if size > 450:
+            return False
+        return not any(isinstance(n, (ast.Yield, ast.YieldFrom, ast.While, ast.Global, ast.Nonlocal)) for n in ast.walk(fnode))
 
     def construct_dataclass(self, cref, args, kwargs, node):
         fields, methods, props = extract.class_members(cref.node)
@@ -1968,6 +1981,14 @@ class Interp:
         if isinstance(o, SymSeq):
             if attr == 'append' and len(args) == 1:
                 o.append(args[0])
+                return None
+            if attr == 'extend' and len(args) == 1 and isinstance(args[0], (list, tuple)):
+                for x in args[0]:
+                    o.append(x)
+                return None
+            if attr == 'extend' and len(args) == 1 and isinstance(args[0], SymSeq) and len(args[0].cols) == len(o.cols) and o.keys == args[0].keys:
+                for j in range(len(o.cols)):
+                    o.cols[j] = z3.Concat(o.cols[j], args[0].cols[j])
                 return None
             if attr == 'copy':
                 return o.copy()
